@@ -99,6 +99,26 @@ def tlc(workdir, module, cfg, workers=1, timeout=900, simulate=None, extra=(), d
     return res
 
 
+def apalache(workdir, module, cinit, init, next_, inv, length, timeout=900):
+    """Run Apalache's bounded checker (used for inductive invariants: length 0 from Init, length 1 from IndInit)."""
+    for f in os.listdir(SPEC):
+        if f.endswith(".tla"):
+            shutil.copyfile(os.path.join(SPEC, f), os.path.join(workdir, f))
+    out_dir = tempfile.mkdtemp(prefix="apa-", dir=workdir)
+    cmd = ["timeout", str(timeout), "apalache-mc", "check", "--cinit=" + cinit, "--init=" + init, "--next=" + next_, "--inv=" + inv,
+           "--length=%d" % length, "--out-dir=" + out_dir, module + ".tla"]
+    env = dict(os.environ)
+    jt = tempfile.mkdtemp(prefix="jt-", dir=workdir)
+    env["JAVA_TOOL_OPTIONS"] = (env.get("JAVA_TOOL_OPTIONS", "") + " -Djava.io.tmpdir=" + jt).strip()
+    t0 = time.time()
+    p = subprocess.run(cmd, cwd=workdir, env=env, capture_output=True, text=True)
+    out = p.stdout + p.stderr
+    shutil.rmtree(out_dir, ignore_errors=True)
+    shutil.rmtree(jt, ignore_errors=True)
+    m = re.search(r"The outcome is: (\w+)", out)
+    return {"rc": p.returncode, "outcome": m.group(1) if m else "none", "wall_s": round(time.time() - t0, 1), "out": out}
+
+
 def write_cfg(workdir, name, text):
     with open(os.path.join(SPEC, name), "w") as f:
         f.write(text)
